@@ -408,6 +408,9 @@ def run_calls(ctx, rng, quick, k=1.0):
         us = rng.randrange(lo, hi) if i % 4 else rng.choice([0, -1, 1, 999, -1000, 1000 * B.MS_LO, 1000 * B.MS_HI - 1])
         check_shapes(ctx, us, rng.randrange(2 ** 31), "shapes")
     check_extreme_epochs(ctx, "extremes")
+    # round 7: copies / pickles before use, state after rejected calls, user subclasses, global numeric state, two roles, 0/1/2 events
+    for _ in range(max(1, int((60 if quick else 1500) * k))):
+        check_round7(ctx, rng.randrange(2 ** 31), "round7")
     for _ in range(max(1, int((3 if quick else 30) * k))):
         check_caller_objects(ctx, rng.randrange(2 ** 31), "caller")
     # every microsecond across second / minute / hour / day / month carries in the property's range
@@ -419,7 +422,9 @@ def run_calls(ctx, rng, quick, k=1.0):
 
 def replay(ctx, case):
     kind = case.get("kind")
-    if kind == "strp":
+    if kind == "round7":
+        check_round7(ctx, int(case["seed"]), "replay")
+    elif kind == "strp":
         check_strp(ctx, int(case["seed"]), "replay")
     elif kind == "shapes15":
         check_shapes(ctx, int(case["us"]), int(case["seed"]), "replay")
@@ -566,7 +571,13 @@ def check_extreme_epochs(ctx, tag):
             d = tu.decimal_year_to_utc_datetime(y)
             e = tu.decimal_year_to_utc_epoch(y)
         except Exception as ex:
-            run.oracle_failure(case, f"decimal_year_to_utc_datetime({name}) raised {type(ex).__name__}: {ex}")
+            if isinstance(y, float):
+                run.oracle_failure(case, f"decimal_year_to_utc_datetime({name}) raised {type(ex).__name__}: {ex}")
+            else:
+                # a decimal year is a float (what decimal_year returns; "all decimal years" of the property); whether an INTEGER-typed
+                # argument is accepted is incidental (timedelta refuses numpy integers after a rewrite with divmod): recorded.
+                # When it IS accepted the answer must be right (below).
+                run.count(f"extreme15:integer-typed-decimal-year-refused:{type(ex).__name__}(not judged)")
             continue
         if d.tzinfo is None or abs(us_of(d) - us_of(want)) > 1000 or abs(e - us_of(want) // 1000) > 1:
             run.oracle_failure(case, f"decimal_year_to_utc_datetime({name}) = {d!r} / {e}; the instant is {want.isoformat()}")
@@ -744,3 +755,140 @@ def check_strp(ctx, seed, tag):
         return
     ctx.ask(f"c15_strp dt {_hex(fmt)} {_hex(s)}", got_dt, dict(case, op="c15_strp dt"))
     ctx.ask(f"c15_strp epoch {_hex(fmt)} {_hex(s)}", got_ep, dict(case, op="c15_strp epoch"))
+
+
+# ------------------------------------------------------------------------------------------------ round 7: classes (h) … (n)
+def _user_catalog_classes():
+    """user catalogs overriding the documented accessor get_epoch_times() CONSISTENTLY: the accessor is the source of truth"""
+    from csep.core.catalogs import CSEPCatalog
+
+    class SecondsCatalog(CSEPCatalog):
+        """the origin_time column holds whole SECONDS; the accessor returns milliseconds"""
+        def get_epoch_times(self):
+            return self.catalog["origin_time"] * 1000
+
+    class OffsetCatalog(CSEPCatalog):
+        """stored times carry a clock offset of 37 s"""
+        def get_epoch_times(self):
+            return self.catalog["origin_time"] - 37000
+
+    class ViewCatalog(CSEPCatalog):
+        """the accessor returns a shifted COPY as int64 ndarray of another byte order than the column (an ndarray, like the base class)"""
+        def get_epoch_times(self):
+            return (self.catalog["origin_time"].astype(">i8") + 1)
+
+    return [("seconds", SecondsCatalog, lambda t: t * 1000, 1000), ("offset", OffsetCatalog, lambda t: t - 37000, 1),
+            ("big-endian+1", ViewCatalog, lambda t: t + 1, 1)]
+    # (an accessor returning a python LIST is not generated: the base class returns an ndarray and callers may rely on that)
+
+
+@_guarded
+def check_round7(ctx, seed, tag):
+    """(h) copies / pickles before use, (i) state after a caught exception, (j) user subclasses, (k) global numeric state,
+    (l) one object in two roles, (m) degenerate counts — on the time-derived values of catalogs and forecasts and on the conversions"""
+    import copy
+    import decimal
+    import pickle
+    import random
+    import numpy
+    from csep.core.catalogs import CSEPCatalog
+    from csep.core.forecasts import CatalogForecast
+    from csep.utils import time_utils as tu
+    run = ctx.run
+    rng = random.Random(seed)
+    case = _case(kind="round7", seed=seed, tag=tag)
+    run.case(case, ("round7", seed % 11))
+
+    def fail(what, msg):
+        run.oracle_failure(dict(case, what=what), msg)
+
+    n = rng.choice([0, 1, 2, 2, 3, 7, 40])                                   # (m) degenerate counts included
+    # ---- (j) user subclass overriding get_epoch_times
+    name, cls, acc, unit = rng.choice(_user_catalog_classes())
+    stored = sorted(rng.randrange(B.MS_LO // unit + 40, B.MS_HI // unit - 40) for _ in range(n))
+    if rng.random() < 0.3:
+        rng.shuffle(stored)
+    cat = cls(data=[(str(i), t, 0.0, 0.0, 0.0, 1.0) for i, t in enumerate(stored)])
+    want = [acc(t) for t in stored]
+
+    def judge_catalog(c, how):
+        try:
+            got_t = [int(x) for x in c.get_epoch_times()]
+            dts = c.get_datetimes()
+        except Exception as ex:
+            fail(how, f"{how}: {type(ex).__name__}: {ex}")
+            return
+        if got_t != want:
+            fail(how, f"{how}: get_epoch_times() = {got_t[:4]}, the accessor's values are {want[:4]}")
+        if len(dts) != len(want) or any(d is None or d.tzinfo is None or us_of(d) != 1000 * w for d, w in zip(dts, want)):
+            fail(how, f"{how} ({name} catalog, {n} events): get_datetimes() = {[str(d) for d in dts[:3]]} does not follow "
+                      f"get_epoch_times() = {want[:3]}")
+        if want:
+            if c.start_time is None or us_of(c.start_time) != 1000 * min(want) or us_of(c.end_time) != 1000 * max(want):
+                fail(how, f"{how}: start_time / end_time {c.start_time} / {c.end_time} do not follow the accessor ({min(want)}, {max(want)})")
+        elif c.start_time is not None or c.end_time is not None:
+            fail(how, f"{how}: an empty catalog has start_time {c.start_time!r}")
+        run.count(f"round7:catalog:{how.split(':')[0]}")
+    judge_catalog(cat, "user-subclass")
+    # ---- (h) copies before use
+    for how, f in (("copy.copy", copy.copy), ("copy.deepcopy", copy.deepcopy), ("pickle", lambda x: pickle.loads(pickle.dumps(x)))):
+        try:
+            c2 = f(cat)
+        except Exception as ex:
+            run.count(f"round7:copy-form-unavailable:{how}:{type(ex).__name__}")
+            continue
+        judge_catalog(c2, f"{how}: of a user catalog")
+    plain = CSEPCatalog(data=[(str(i), w, 0.0, 0.0, 0.0, 1.0) for i, w in enumerate(want)])
+    judge_catalog(rng.choice([copy.copy, copy.deepcopy, lambda x: pickle.loads(pickle.dumps(x))])(plain), "copy: of a library catalog")
+    us = rng.randrange(B.MS_LO, B.MS_HI) * 1000 + rng.randrange(1000)
+    for how, f in (("copy.copy", copy.copy), ("copy.deepcopy", copy.deepcopy), ("pickle", lambda x: pickle.loads(pickle.dumps(x)))):
+        d = f(B._mk_dt(us, rng.choice(["naive", "utc", "zoneinfo"])))
+        if tu.datetime_to_utc_epoch(d) != us // 1000 or tu.decimal_year(d) != tu.decimal_year(dt_of(us, True)):
+            fail(how, f"a {how} of a datetime converts differently")
+    # ---- (l) one object in two roles: one catalog member of two forecasts, one datetime as start of both
+    a, b_ = dt_of(us - us % 1000, True), dt_of(us - us % 1000 + 86400000000 * rng.randrange(1, 400), True)
+    try:
+        f1 = CatalogForecast(catalogs=[plain], start_time=a, end_time=b_, name="one")
+        f2 = CatalogForecast(catalogs=[plain, plain], start_time=a, end_time=a, name="two")
+        if f1.start_epoch != us // 1000 or f2.start_epoch != us // 1000 or f2.end_epoch != us // 1000 \
+                or f1.end_epoch != us_of(b_) // 1000:
+            fail("two-roles", "one datetime / catalog shared by two forecasts: start_epoch / end_epoch differ from the datetimes' milliseconds")
+    except Exception as ex:
+        fail("two-roles", f"forecasts sharing a catalog / a datetime: {type(ex).__name__}: {ex}")
+    # ---- (i) state after a caught exception: a rejected call, then the legal ones
+    rejected = 0
+    for bad in (lambda: tu.datetime_to_utc_epoch(B._mk_dt(us, "offset:5")), lambda: tu.strptime_to_utc_epoch("2010-13-45 99:00:00"),
+                lambda: tu.strptime_to_utc_datetime("not a time", format="%Y-%m-%dT%H:%M:%S"), lambda: tu.decimal_year("x"),
+                lambda: tu.epoch_time_to_utc_datetime("12"), lambda: plain.filter("datetime >= nonsense"),
+                lambda: plain.filter(["datetime >= " + str(dt_of(us, False)), "datetime ~ oops"], in_place=True)):
+        try:
+            bad()
+        except Exception:
+            rejected += 1
+    run.count("round7:rejected-calls", rejected)
+    judge_catalog(plain, "after-rejected-calls")
+    s = str(dt_of(us, rng.random() < 0.5))
+    try:
+        if tu.strptime_to_utc_epoch(s) != us // 1000 or us_of(tu.strptime_to_utc_datetime(s)) != us \
+                or tu.datetime_to_utc_epoch(dt_of(us, True)) != us // 1000 or us_of(tu.epoch_time_to_utc_datetime(us // 1000)) != us - us % 1000:
+            fail("after-rejected-calls", "a conversion gives another answer after an earlier call was rejected")
+        if want:
+            thr = sorted(want)[len(want) // 2]
+            kept = plain.filter(f"datetime >= {dt_of(1000 * thr, False)}", in_place=False)
+            if sorted(int(x) for x in kept.get_epoch_times()) != sorted(w for w in want if w >= thr):
+                fail("after-rejected-calls", "a datetime statement selects other events after malformed statements were rejected")
+    except Exception as ex:
+        fail("after-rejected-calls", f"legal call after rejected ones: {type(ex).__name__}: {ex}")
+    # ---- (k) global numeric state
+    with numpy.errstate(all="raise"), decimal.localcontext() as dctx:
+        dctx.prec = rng.randrange(2, 7)
+        try:
+            y = tu.decimal_year(dt_of(us, True))
+            ok = (tu.datetime_to_utc_epoch(dt_of(us, False)) == us // 1000 and us_of(tu.epoch_time_to_utc_datetime(us // 1000)) == us - us % 1000
+                  and tu.strptime_to_utc_epoch(s) == us // 1000 and abs(us_of(tu.decimal_year_to_utc_datetime(y)) - us) < 1000
+                  and y == tu.decimal_year(dt_of(us, True)))
+            if not ok:
+                fail("numeric-state", "a conversion depends on numpy's error state / the decimal context")
+        except Exception as ex:
+            fail("numeric-state", f"under numpy.errstate(all='raise') and decimal prec {dctx.prec}: {type(ex).__name__}: {ex}")
+        judge_catalog(plain, "numeric-state")
